@@ -335,6 +335,35 @@ Definition in_bounds (b : list Z * list Z) (x : list Z) : bool :=
   forallb (fun p => (fst p <=? snd p)%Z) (combine (fst b) x) && forallb (fun p => (fst p <=? snd p)%Z) (combine x (snd b)).
 Definition is_none {A} (o : option A) : bool := match o with None => true | Some _ => false end.
 
+(** * 11b. the decision space of the protocols whose decision variables index a cross map (OptimalHaploidValue* and
+      UsefulnessCriterion* Selection .problem(), all four encodings):
+        xmap = <Problem>._calc_xmap(pgmat.ntaxa, self.nparent, self.unique_parents)      (= the rows xmapix enumerates)
+      subset encoding:   decn_space = numpy.arange(len(xmap)); decn_space_lower = numpy.repeat(0, self.ncross);
+                         decn_space_upper = numpy.repeat(len(xmap)-1, self.ncross); ndecn = self.ncross
+      vector encodings:  decn_space_lower = numpy.repeat(<lo>, len(xmap)); decn_space_upper = numpy.repeat(<up>, len(xmap));
+                         decn_space = numpy.stack([lower, upper]); ndecn = len(xmap)
+      with <lo>, <up> = 0, 1 (binary), 0.0, 1.0 (real), 0, numpy.sum(self.nmating * self.nprogeny) (OHV integer),
+      0, self.nparent * numpy.sum(self.nmating) (UC integer).  The map has comb(n, k) rows only when parents are unique; with
+      unique_parents = False it has comb(n+k-1, k): the space must be sized by the map, never by a closed formula for one case. *)
+Definition xmap_subset_space (ntaxa nparent ncross : nat) (unique_parents : bool) : option (list Z * list Z * list Z * Z) :=
+  match xmapix ntaxa nparent unique_parents with
+  | None => None
+  | Some L => Some (map Z.of_nat (seq 0 (length L)), repeat 0%Z ncross, repeat (Z.of_nat (length L) - 1)%Z ncross, Z.of_nat ncross)
+  end.
+Definition xmap_vector_space {V : Type} (lo up : V) (ntaxa nparent : nat) (unique_parents : bool) : option (list V * list V * Z) :=
+  match xmapix ntaxa nparent unique_parents with
+  | None => None
+  | Some L => Some (repeat lo (length L), repeat up (length L), Z.of_nat (length L))
+  end.
+Definition ohv_int_upper (nmating nprogeny : list Z) : Z := sumZ (map2 Z.mul nmating nprogeny).
+Definition osubspace_eqb (a b : option (list Z * list Z * list Z * Z)) : bool :=
+  opt_eqb (fun u v => zl_eqb (fst (fst (fst u))) (fst (fst (fst v))) && zl_eqb (snd (fst (fst u))) (snd (fst (fst v)))
+                      && zl_eqb (snd (fst u)) (snd (fst v)) && Z.eqb (snd u) (snd v)) a b.
+Definition ovecspaceZ_eqb (a b : option (list Z * list Z * Z)) : bool :=
+  opt_eqb (fun u v => zl_eqb (fst (fst u)) (fst (fst v)) && zl_eqb (snd (fst u)) (snd (fst v)) && Z.eqb (snd u) (snd v)) a b.
+Definition ovecspaceQ_eqb (a b : option (list Q * list Q * Z)) : bool :=
+  opt_eqb (fun u v => ql_eqb (fst (fst u)) (fst (fst v)) && ql_eqb (snd (fst u)) (snd (fst v)) && Z.eqb (snd u) (snd v)) a b.
+
 (** * 12. object lifecycle of a configuration: the fields a sampling reads, the operations that change them.
       The setters store their argument (no derived value is kept), an in-place write into the decision vector changes the
       same field, copy / deepcopy carry the fields over; sample_xconfig reads ncross, nparent, xconfig_decn (and the cross map)
